@@ -56,12 +56,20 @@ func checkC12(c *Ctx, p *Prog, r *Result) {
 	}
 	rs := &RuleSet{Atoms: []AtomDef{
 		errNil("decoded-ok", "the single item was decoded without error", named("fdo/cbor.Decoder.Decode"), nil),
-		{Name: "no-trailing", Doc: "buf.Len() > 0 is false after decoding", Edge: func(m *Matcher, pd Pred, holds bool) bool {
-			if pd.Kind != "lt" || holds || !isConstInt(pd.X, 0) {
-				return false
+		{Name: "no-trailing", Doc: "buf.Len() > 0 is false (or buf.Len() == 0 is true) after decoding", Edge: func(m *Matcher, pd Pred, holds bool) bool {
+			isLen := func(v ssa.Value) bool {
+				n, _, call := m.ResultOf(v)
+				return call != nil && n == "bytes.Buffer.Len"
 			}
-			n, _, call := m.ResultOf(pd.Y)
-			return call != nil && n == "bytes.Buffer.Len"
+			switch pd.Kind {
+			case "lt": // 0 < Len is false
+				return !holds && isConstInt(pd.X, 0) && isLen(pd.Y)
+			case "eq": // Len == 0 is true
+				return holds && ((isConstInt(pd.Y, 0) && isLen(pd.X)) || (isConstInt(pd.X, 0) && isLen(pd.Y)))
+			case "le": // Len <= 0 is true
+				return holds && isConstInt(pd.Y, 0) && isLen(pd.X)
+			}
+			return false
 		}},
 	}}
 	fu := NewFlow(p, rs, []*ssa.Function{um}, func(g *ssa.Function) bool { return g != um })
@@ -71,6 +79,7 @@ func checkC12(c *Ctx, p *Prog, r *Result) {
 
 	// (2b) a byte string that wraps an item is consumed in full
 	c12WrappedItemConsumed(p, r)
+	c12KindRestricted(p, r)
 
 	// head helpers invariants behind two reviewed panics
 	r.rule("C12.head-bytes", "the additional-bytes buffer is made with a constant size of 1, 2, 4 or 8 (so toU64 never sees more than 8 bytes)")
@@ -324,4 +333,106 @@ func limitedByUnwrap(m *Matcher, v ssa.Value) bool {
 		}
 	}
 	return false
+}
+
+// c12KindRestricted: the codec's range-check helpers switch over a reflect.Kind
+// and panic for a kind they have no case for. Every call must therefore be
+// reached only on paths that established `kind == c` for a c the callee
+// handles (a switch in the caller, or a pure bool helper around one): the
+// caller's paths to the call are enumerated with the kind comparisons as
+// boolean atoms.
+func c12KindRestricted(p *Prog, r *Result) {
+	rule := "C12.kind-restricted"
+	r.rule(rule, "a helper that switches over a reflect.Kind parameter and panics for any other kind is called only on paths where the caller compared that very kind value equal to one of the kinds the helper handles (path enumeration over the caller, pure bool helpers evaluated through their own paths)")
+	r.floor(rule, 2)
+	n := 0
+	for _, callee := range p.Funcs {
+		if funcPkgPath(callee) != modulePath+"/cbor" || len(callee.Blocks) == 0 {
+			continue
+		}
+		// a reflect.Kind parameter compared with constants, and a panic in the function
+		kindParam := -1
+		for i, prm := range callee.Params {
+			if typeShort(prm.Type()) == "reflect.Kind" {
+				kindParam = i
+			}
+		}
+		if kindParam < 0 {
+			continue
+		}
+		cases := map[int64]bool{}
+		hasPanic := false
+		for _, b := range callee.Blocks {
+			for _, in := range b.Instrs {
+				switch x := in.(type) {
+				case *ssa.Panic:
+					hasPanic = true
+				case *ssa.BinOp:
+					if x.Op == token.EQL && x.X == ssa.Value(callee.Params[kindParam]) {
+						if c, ok := constInt(x.Y); ok {
+							cases[c] = true
+						}
+					}
+				}
+			}
+		}
+		if !hasPanic || len(cases) == 0 {
+			continue
+		}
+		for _, ed := range p.CallGraph().in[callee] {
+			call, ok := ed.Site.(*ssa.Call)
+			if !ok || ed.Kind != "static" {
+				continue
+			}
+			caller := ed.Caller
+			kindArg := call.Call.Args[kindParam]
+			n++
+			key := fmt.Sprintf("call #%d of %s in %s", n, p.FuncName(callee), p.FuncName(caller))
+			e := newBoolPaths(p)
+			paths, bad := 0, ""
+			var resolve func(v ssa.Value, st *bpState, d int) ssa.Value
+			resolve = func(v ssa.Value, st *bpState, d int) ssa.Value {
+				if prm, ok := v.(*ssa.Parameter); ok && d < 4 {
+					if b, ok := st.bind[prm]; ok {
+						return resolve(b, st, d+1)
+					}
+				}
+				return v
+			}
+			e.walk(caller, caller.Blocks[0], &bpState{env: map[ssa.Value]bool{}, pred: map[*ssa.BasicBlock]*ssa.BasicBlock{}, bind: map[*ssa.Parameter]ssa.Value{}}, map[*ssa.BasicBlock]bool{},
+				func(b *ssa.BasicBlock) bool { return b == call.Block() },
+				func(b *ssa.BasicBlock, st *bpState) {
+					paths++
+					if bad != "" {
+						return
+					}
+					okPath := false
+					for v, val := range st.env {
+						bo, isB := v.(*ssa.BinOp)
+						if !isB || !val || bo.Op != token.EQL {
+							continue
+						}
+						c, isC := constInt(bo.Y)
+						if isC && resolve(bo.X, st, 0) == kindArg && cases[c] {
+							okPath = true
+						}
+					}
+					if !okPath {
+						bad = strings.Join(st.path, " ")
+					}
+				})
+			switch {
+			case e.blown:
+				r.fail("%s: path budget exhausted in %s", rule, p.FuncName(caller))
+			case paths == 0:
+				r.fail("%s: no acyclic path reaches %s", rule, key)
+			default:
+				detail := fmt.Sprintf("%d paths reach the call, each after comparing the kind equal to one of the %d kinds the helper handles", paths, len(cases))
+				if bad != "" {
+					detail = "a path reaches the call without restricting the kind to the helper's cases: " + bad
+				}
+				r.table(p, rule, key, p.instrPos(call), bad == "", detail)
+			}
+		}
+	}
 }
